@@ -20,5 +20,10 @@ CLAIMS = {
   "text": "Decides over every CanonicalSerialize/CanonicalDeserialize impl of the workspace, the curve crates and derive-macro output: each of ~370 inner calls receives the caller's compress flag and each of ~130 the validate flag (or Validate::No compensated by check/batch_check on the Yes arm; the four mode-pinning wrappers pass exactly their pinned pair in all three methods); no allocation is sized by a length read from the stream; invalid bool bytes, invalid UTF-8 and length-conversion failures reach an Err arm and no unwrap/expect consumes stream-derived data; for straight-line impls writer, reader and size visit the same element types in the same order. Value equality of round trips and exact byte counts at run time are not decided.",
   "note": "Trusted: rustc MIR; sink/reader/bound name tables in rules/c18.py. Straight-line restriction: impls with closures/loops are covered by the flag and taint rules only.",
  },
+ "C06": {
+  "technique": "sibling-agreement and closure dataflow rules over MIR of all pairing models (serial + parallel configs), constant-table obligations for mixed bit-iterator policies",
+  "text": "Decides structural necessary conditions over the five pairing models in ark-ec and the hand-written CP6-782 pairing: identity pairs are removed individually before line evaluation (three models lack the filter: recorded known findings with a panicking input), per-chunk Miller accumulators do not fold captured target-field values (chunk-count independence; the BW6 violation was repaired), G2 preparation and Miller loop iterate the same bit string (mixed new/without_leading_zeros policy discharged per shipped configuration from the constant table), final exponentiation yields None only via inverse(), pairing-output scalar multiplication passes the full scalar. Bilinearity, non-degeneracy, prepared = unprepared and the hard-part exponent chains are not decided.",
+  "note": "Trusted: rustc MIR, adaptor tables (element-wise vs prefix-truncating) in rules/c06.py. Known findings listed in known_findings.json are genuine and reproduced (MNT4/MNT6/CP6-782 e(P, O) panics).",
+ },
 }
 NOT_APPLICABLE = {}
